@@ -37,13 +37,13 @@ def analyse_unit(path):
                 probs, info = hooks.check_dispatch(db, fn, tab, mon)
                 probs = [(p[0], p[1]) for p in probs if p[0] in ('H3', 'H7')] + [(v[0], v[1]) for v in viol if v[0] == 'H-arg']
                 add('dispatch', fn, probs, len(tab))
-            elif tn == T + 'normal' and fn['n'] in ('apply', 'apply0'):
+            elif tn == T + 'normal' and fn['n'] in ('apply', 'apply0') and any(is_input_type(p['t'].replace('const ', '')) for p in fn['params']):
                 probs, rows = actions.check_normal_apply(db, fn)
                 add('normal-hook', fn, [('A1', p) for p in probs], len(rows))
             elif tn in (I + 'apply', I + 'apply0', I + 'if_apply') and fn['n'] == 'match':
                 probs, rows = actions.check_apply_rule(db, fn, an)
                 add('apply-rule', fn, [('A2', p) for p in probs], len(rows))
-            elif tn == I + 'action_input':
+            elif tn == I + 'action_input' and any(x in (fn.get('cls') or {}).get('s', '') for x in ('memory_input<', 'buffer_input<', '_input<')) and 'token_parse_input' not in (fn.get('cls') or {}).get('s', ''):
                 probs, rows = actions.check_action_input(db, fn)
                 if probs is not None: add('action-input', fn, [('A3', p) for p in probs], len(rows))
             elif is_match_root(fn) and is_input_type(fn['params'][0]['t']) and tn not in c13.SCOPE_CLASSES and tn:
@@ -65,7 +65,7 @@ def run(tier):
     seen = set(); kinds = {}
     for p in paths:
         res = results[p]
-        for b in res['broken']: R.broke(b)
+        for b in res['broken']: R.broke_at(p, b)
         for it in res['items']:
             if it['disp'] in seen: continue
             seen.add(it['disp']); kinds[it['kind']] = kinds.get(it['kind'], 0) + 1
@@ -79,7 +79,7 @@ def run(tier):
     ep = core.extract(list(units.EQUIV))
     er = repo_units.map_units('sa.checks.c09', 'analyse_unit', ep, extra=(8, sorted(set(c09.C09_RULES) | set(c09.CLASSICAL))))
     for p in ep:
-        for b in er[p]['broken']: R.broke(b)
+        for b in er[p]['broken']: R.broke_at(p, b)
         for it in er[p]['items']:
             probs = [q for q in it['problems'] if q[0] == 'E-mode']
             kinds['equiv-mode'] = kinds.get('equiv-mode', 0) + 1
